@@ -67,6 +67,16 @@ def span_violations(culture, query, results):
     return vs, maxstart, n
 
 
+def pred_zh_empty_entity(case, v):
+    """known finding: zh-cn date-time model, repeated 之前/以前 expressions: an entity with empty text, empty sub-type and end = start - 1"""
+    d = v.detail or {}
+    e = d.get('entity') or {}
+    return d.get('culture') == 'zh-cn' and d.get('model') == 'datetime' and e.get('text') == '' and e.get('type') == 'datetimeV2.'
+
+
+PREDICATES = {'c01_zh_empty_entity': pred_zh_empty_entity}
+
+
 def run_query(case):
     culture, q = case['culture'], case['q']
     results = allmodels.run_all(culture, q, case.get('ref', '2016-11-07T12:00:00'))
